@@ -56,7 +56,10 @@ def tsig(clause, t):
 
 def run_plans(ctx, plans, nproc):
     jobs = [(p, ctx.scratch) for p in plans]
-    results = wdpool.run_jobs(certchain.execute_any, jobs, nproc=nproc, budget=2.0, retry_budget=10.0, max_hangs=6)
+    # (a long run is hundreds of certificates in one process: it gets the time of that many)
+    scale = [max(1, p["longrun"]["n"] // 4) if "longrun" in p else 1 for p in plans]
+    results = wdpool.run_jobs(certchain.execute_any, jobs, nproc=nproc, budget=2.0, retry_budget=10.0, max_hangs=6,
+                              scale=scale)
     traces, extras = [], []
     for p, r in zip(plans, results):
         if r["status"] == "skipped":
@@ -75,6 +78,8 @@ def run_plans(ctx, plans, nproc):
         if also is not None:        # the answer changed after the object had been asked about another root
             also["plan"] = dict(p, requery=True)
             extras.append(also)
+        if "longrun_counts" in t:
+            results.stats["longrun"] = t.pop("longrun_counts")
         for k, m in enumerate(t.pop("more", None) or []):
             # further observations of the same plan: later validations of a history, or an answer that
             # changed when the same question was asked again
@@ -180,7 +185,7 @@ def run(ctx):
         raise core.MachineryError("vacuity: message shapes never generated on a certifier: %s" % missing_shapes)
     res.coverage["message_shape_classes_generated"] = sorted(shapes_seen)
     # quick: every class at least once + a seeded sample; thorough: everything
-    budget = ctx.pick(1000, 60000)
+    budget = ctx.pick(800, 60000)
     chosen = []
     for c in sorted(classes):
         chosen.append(ctx.rng.choice(classes[c]))
@@ -199,7 +204,7 @@ def run(ctx):
     res.coverage["behaviours_replayed"] = len(chosen)
     res.coverage["certificates_from_behaviours"] = n_model
     # 3. binding B: random certificates, byte sweep ----------------------------------------------
-    n_rand = ctx.pick(400, 15000)
+    n_rand = ctx.pick(300, 15000)
     plans += [certchain.random_plan(ctx.rng) for _ in range(n_rand)]
     sweep = certchain.sweep_plans(ctx.rng, ctx.pick(1, 8))
     if ctx.quick:
@@ -223,6 +228,14 @@ def run(ctx):
     hplans += [certchain.built_history_plan(ctx.rng) for _ in range(ctx.pick(80, 1500))]
     hplans += [certchain.pair_plan(ctx.rng) for _ in range(ctx.pick(50, 800))]
     plans += hplans
+    # one long-lived process: >= 300 distinct devices (600 certifier keys), early certificates and forgeries
+    # of them (re-signed with a later device's key) validated again at the distances of harness/longrun.py.
+    # (placed first so that it runs alongside everything else; it is not a model behaviour)
+    lr = certchain.longrun_plan(ctx.rng, ctx.pick(300, 600), ctx.pick(6, 4),
+                                ctx.pick(["latest"], ["latest", "previous"]))
+    plans.insert(0, lr)
+    origin.insert(0, None)
+    n_model += 1
     if not any(e["k"] == "op:validate" for b in hb for e in (b["log"] or [])) or \
             not any(e["k"] == "op:addel" for b in hb for e in (b["log"] or [])):
         raise core.MachineryError("vacuity: the history configuration generated no re-validation / no add_element")
@@ -250,6 +263,8 @@ def run(ctx):
     # model drift: the model's own verdicts vs. the code's
     drift = 0
     for k in range(n_model):
+        if origin[k] is None:
+            continue
         b, t = behaviours[origin[k]], traces[k]
         mres = _dict(b["result"])
         if (b["phase"] == "error") != (t["outcome"] == "error"):
